@@ -459,6 +459,23 @@ theorem interlace_is_spec_bytes (i : Img) (c : Nat) (hc : 0 < c) (hbpp : i.ihdr.
     rw [h3]; exact List.getElem_mem _
   exact interlace_row_bytes i.ihdr.width c y k hc line (hrows _ hmem)
 
+/-- **One source row of `interlace_image`, any bit depth**: the bits selected for pass `k` are the bit
+    groups (pixels) of the row whose column is on the pass - whole pixels, in order; the padding bits
+    after the last pixel are never selected. -/
+theorem interlace_row_pixels (w bpp rowIdx k : Nat) (hb : 0 < bpp) (line : Bytes)
+    (hl : w * bpp ≤ 8 * line.length) :
+    lineBitsForPass w bpp rowIdx k line =
+      ((chunksExact bpp ((bitsOf line).take (w * bpp))).zipIdx.filter
+        fun p => decide (passOf (rowIdx % 8) (p.2 % 8) = k)).flatMap (·.1) := by
+  unfold lineBitsForPass
+  have hlen : ((bitsOf line).take (w * bpp)).length = w * bpp := by
+    rw [List.length_take, bitsOf_length]; omega
+  obtain ⟨hfl, hpl⟩ := flatten_chunksExact bpp hb w _ hlen
+  have key := filter_blocks bpp hb (fun m => decide (passOf (rowIdx % 8) (m % 8) = k))
+    (chunksExact bpp ((bitsOf line).take (w * bpp))) 0 hpl
+  rw [Nat.zero_mul, hfl] at key
+  exact key
+
 end interlaceBytes
 
 end OxiModel.C18
